@@ -1167,6 +1167,13 @@ class SymEval:
                 return ~v
             if is_arr(v) and v.dtype == object and all(isinstance(e, (bool, np.bool_)) or e is sp.true or e is sp.false for e in v.ravel()):
                 return np.array([not bool(e) for e in v.ravel()], dtype=bool).reshape(v.shape)
+            # whole numbers: ~x is -(x + 1), as for Python and numpy integers (an index array is not complemented by ~)
+            def _whole(e):
+                return (isinstance(e, (int, np.integer)) and not isinstance(e, (bool, np.bool_))) or isinstance(e, sp.Integer)
+            if _whole(v):
+                return sp.Integer(-(int(v) + 1))
+            if is_arr(v) and v.size and (np.issubdtype(v.dtype, np.integer) or (v.dtype == object and all(_whole(e) for e in v.ravel()))):
+                return np.array([sp.Integer(-(int(e) + 1)) for e in v.ravel()], dtype=object).reshape(v.shape)
             return vmap(sp.Not, v)
         raise Opaque(norm(n))
 
